@@ -53,7 +53,8 @@ func genC12(seed uint64, tier string) *plan.Plan {
 	hs.Ops = append(hs.Ops, plan.Op{K: "ctl.stats", M: 0})
 	hist.Clients = []plan.Script{hs}
 	work := plan.Phase{Name: "iterate", Yields: true}
-	pats := []string{"", "", "^s", "^s0[0-4]", "7$", "nomatch", "^d"}
+	// anchored, unanchored (a plain literal matches anywhere in the key), classes, alternatives
+	pats := []string{"", "", "^s", "^s0[0-4]", "7$", "nomatch", "^d", "0", "12", "s0", "1|3", "[0-9]5", "s.*9"}
 	counts := []int{0, 1, 2, 3, 10, 100, 5000}
 	nscan := r.Range(1, 4)
 	for i := 0; i < nscan; i++ {
